@@ -63,6 +63,14 @@ def report():
         meta["checked_against"] = [r["prop"] for r in rows]
         json.dump(meta, open(d + "/meta.json", "w"), indent=1)
         lines.append("| %s | %s | %s | %s |" % (name, meta.get("breaks_property", ""), meta.get("change", "").replace("|", "/"), "; ".join(res) or "(not run)"))
+    # reverse-fix mutants: the repairs of DESIGN 9.5 taken out again (tools/mutrun.py <name> -R<commit> / seeded/revfix/*.diff)
+    lines += ["", "## Repairs taken out again", "",
+              "Each `fix:` commit of /repo reverted on a scratch worktree (for two of them a hand-made reverse patch, `seeded/revfix/`); logs `.work/rf_<commit>.log`.", "",
+              "| reverted fix | quick checks run -> result |", "|---|---|"]
+    for f in sorted(glob.glob(V + "/.work/rf_*.log")):
+        rows = parse(f)
+        res = ["%s: %s" % (r["prop"], ("**caught** (%s)" % r["what"]) if r["rc"] == 1 else ("not caught" if r["rc"] == 0 else "tool error")) for r in rows]
+        lines.append("| %s | %s |" % (os.path.basename(f)[3:-4], "; ".join(res)))
     open(V + "/seeded/RESULTS.md", "w").write("\n".join(lines) + "\n")
     print("\n".join(lines[8:]))
 
